@@ -263,6 +263,30 @@ pub open spec fn cat_data0(q: Seq<DataWithoutzooms>, n: int) -> Seq<u8>
 { if n <= 0 { Seq::empty() } else { cat_data0(q, n - 1) + q[n - 1].1.staged() } }
 
 // =====================================================================================
+// make_zoom (closure of write_vals): the initial entry of a level in the zoom map
+// =====================================================================================
+/// TempFileBuffer::<File>::new(inmemory): ASSUMED (tfb `fresh_pair`): a fresh consumer/producer pair, nothing written yet
+#[verifier::external_body]
+pub fn level_file_new(inmemory: bool) -> (r: (LevelBuf, ZoomWriter))
+    ensures r.1.bytes().len() == 0,
+{ unimplemented!() }
+/// only `inmemory` is read
+pub struct Opts { pub inmemory: bool }
+
+//@extract closure bigtools/src/bbi/bbiwrite.rs write_vals make_zoom
+//@header fn make_zoom(size: u32, options: &Opts) -> (u32, ZoomValue)
+//@sub /\(TempFileBuffer<File>, TempFileBufferWriter<File>\)/ => (LevelBuf, ZoomWriter) min=0
+//@sub /TempFileBuffer::new\(/ => level_file_new( min=0
+//@ret r
+//@sig
+    ensures
+        [[L: make_zoom/entry_is_keyed_by_the_size]]
+        r.0 == size,
+        [[L: make_zoom/level_starts_with_no_section_lists_and_an_empty_writer_in_its_slot]]
+        r.1.0@.len() == 0, r.1.2 matches Some(w) && w.bytes().len() == 0,
+//@end
+
+// =====================================================================================
 // write_chroms_without_zooms
 // =====================================================================================
 #[verifier::loop_isolation(false)]
